@@ -104,13 +104,17 @@ class BuiltinBroachingCodeGenerator(BroachingCodeGenerator):
             return self._gen_accessor_element(state, element)
         raise TypeError
 
+    def _parse_expr(self, expr: str) -> AST:
+        # a module consisting of one string is unparsed as a docstring spanning several lines
+        return ast.parse(expr, mode="eval").body
+
     def _gen_parameter_element(self, state: GenState, element: ParameterElement) -> AST:
         return ast.Name(id=element.name, ctx=ast.Load())
 
     def _gen_constant_element(self, state: GenState, element: ConstantElement) -> AST:
         expr = get_literal_expr(element.value)
         if expr is not None:
-            return ast.parse(expr)
+            return self._parse_expr(expr)
 
         name = state.register_next_id("constant", element.value)
         return ast.Name(id=name, ctx=ast.Load())
@@ -134,7 +138,7 @@ class BuiltinBroachingCodeGenerator(BroachingCodeGenerator):
         if not element.args:
             literal = get_literal_from_factory(element.func)
             if literal is not None:
-                return ast.parse(literal)
+                return self._parse_expr(literal)
 
         if getattr(element.func, "__name__", None) is not None:
             name = state.register_mangled(element.func.__name__, element.func)
